@@ -1,11 +1,11 @@
 #!/usr/bin/env python3
-"""tools/mut_summary.py [repo_head]: verdict counts of mutation/results.jsonl and the survivors (optionally of one repo head)"""
+"""tools/mut_summary.py [--since N]: verdict counts of mutation/results.jsonl and the survivors (from line N on)"""
 import collections, json, os, sys
 V = os.path.dirname(os.path.dirname(os.path.abspath(__file__)))
 rows = [json.loads(l) for l in open(os.path.join(V, "mutation", "results.jsonl"))]
-if len(sys.argv) > 1:
-    rows = [r for r in rows if r.get("repo_head") == sys.argv[1]]
-print(collections.Counter(r["verdict"].split(":")[0] for r in rows))
+if len(sys.argv) > 2 and sys.argv[1] == "--since":
+    rows = rows[int(sys.argv[2]):]
+print(len(rows), collections.Counter(r["verdict"].split(":")[0] for r in rows))
 for r in rows:
     if r["verdict"] in ("survived", "unjudged"):
-        print("%s %s:%s  [%s] -> [%s]  %s" % (r["verdict"], r["file"], r["line"], r["before"][:90], r["after"][:90], ",".join(r["props"])))
+        print("%s %s %s:%s  [%s] -> [%s]  %s" % (r["verdict"], r.get("repo_head"), r["file"], r["line"], r["before"][:90], r["after"][:90], ",".join(r["props"])))
